@@ -308,9 +308,9 @@ fn judge_format_timestamp(ctx: &Ctx, t: u64, st: &mut Stats) {
     let s = RSchema { core: vec![RComp::Var(RVar::Major)], extra_core: vec![], build: vec![] };
     let v = RVars { major: Some(1), bumped_timestamp: Some(t), custom: json!({}), ..Default::default() };
     let z = bind::zerv(&s, &v).unwrap();
-    let c = cal::civil(t);
+    let c = cal::civil(t.min(1u64 << 62));
     let fmts: Vec<(&str, String)> = vec![
-        ("%Y-%m-%d", format!("{:04}-{:02}-{:02}", c.year, c.month, c.day)), ("compact_date", cal::field("compact_date", t)), ("compact_datetime", cal::field("compact_datetime", t)),
+        ("%Y-%m-%d", format!("{:04}-{:02}-{:02}", c.year, c.month, c.day)), ("compact_date", cal::field("compact_date", t.min(1u64 << 62))), ("compact_datetime", cal::field("compact_datetime", t.min(1u64 << 62))),
         ("%H:%M:%S", format!("{:02}:{:02}:{:02}", c.hour, c.minute, c.second)), ("%j", format!("{:03}", c.yday + 1)), ("%y%m%d-%H", format!("{:02}{:02}{:02}-{:02}", c.year % 100, c.month, c.day, c.hour)),
         // without a % directive a strftime format is literal text - also when it spells one of the schema's ts() tokens
         ("YYYY", "YYYY".into()), ("MM", "MM".into()), ("0W", "0W".into()), ("YYYY0M0D", "YYYY0M0D".into()), ("HHmmSS", "HHmmSS".into()), ("date", "date".into()), ("YYYY-%m", format!("YYYY-{:02}", c.month)), ("%%Y", "%Y".into()),
@@ -319,13 +319,18 @@ fn judge_format_timestamp(ctx: &Ctx, t: u64, st: &mut Stats) {
         st.inc("format_timestamp_calls");
         match render(&z, &format!("[{{{{ format_timestamp(value=bumped_timestamp, format=\"{f}\") }}}}]")) {
             Err(p) => ctx.violation(&format!("panic@{}", p.file()), format!("format_timestamp {f} @ {t}"), json!({"kind":"ts","t":t,"format":f}), p.message),
+            // beyond 9999-12-31 a refusal is admissible (the calendar library's range ends at 8210266876799), a wrong date is not; years with
+            // more than four digits may carry a '+' sign (ISO 8601 expanded representation)
+            Ok(Err(_)) if t > 253402300799 => st.inc("far_instant_refused"),
             Ok(Err(e)) => ctx.violation("format_timestamp_failed", format!("{f} @ {t}"), json!({"kind":"ts","t":t,"format":f}), e),
+            Ok(Ok(o)) if t >= (1u64 << 63) => ctx.violation("format_timestamp_not_utc_calendar", format!("{f} @ {t}"), json!({"kind":"ts","t":t,"format":f}), format!("got {o:?} for an instant no calendar date can be given for (a refusal is expected)")),
+            Ok(Ok(o)) if t > 253402300799 => if o.replace('+', "") != format!("[{want}]") { ctx.violation("format_timestamp_not_utc_calendar", format!("{f} @ {t}"), json!({"kind":"ts","t":t,"format":f}), format!("got {o:?} want [{want}] (a '+' before the year is admissible)")); },
             Ok(Ok(o)) => if o != format!("[{want}]") { ctx.violation("format_timestamp_not_utc_calendar", format!("{f} @ {t}"), json!({"kind":"ts","t":t,"format":f}), format!("got {o:?} want [{want}]")); },
         }
     }
     // default format
     st.inc("format_timestamp_calls");
-    if let Ok(Ok(o)) = render(&z, "[{{ format_timestamp(value=bumped_timestamp) }}]") { let want = format!("[{:04}-{:02}-{:02}]", c.year, c.month, c.day); if o != want { ctx.violation("format_timestamp_not_utc_calendar", format!("default @ {t}"), json!({"kind":"ts","t":t}), format!("got {o:?} want {want}")); } }
+    if let Ok(Ok(o)) = render(&z, "[{{ format_timestamp(value=bumped_timestamp) }}]") { let want = format!("[{:04}-{:02}-{:02}]", c.year, c.month, c.day); let o = if t > 253402300799 { o.replace('+', "") } else { o }; if t < (1u64 << 63) && o != want { ctx.violation("format_timestamp_not_utc_calendar", format!("default @ {t}"), json!({"kind":"ts","t":t}), format!("got {o:?} want {want}")); } }
 }
 
 fn main() {
@@ -384,7 +389,10 @@ fn main() {
     let pool = text_pool();
     let s3 = pool.par_iter().map(|t| { let mut st = Stats::default(); st.inc("function_texts"); judge_functions(&ctx, t, &mut st); st }).reduce(Stats::default, Stats::merge);
     // format_timestamp on C17's boundary instants and a daily sweep
-    let instants: Vec<u64> = [0u64, 1, 59, 86399, 86400, 951782399, 951782400, 951868799, 4107542399, 4107542400, 1709247600, 1710511845, 7258118399, 1230767999, 1230768000].into_iter()
+    let instants: Vec<u64> = [0u64, 1, 59, 86399, 86400, 951782399, 951782400, 951868799, 4107542399, 4107542400, 1709247600, 1710511845, 7258118399, 1230767999, 1230768000,
+        // far instants: the last second of year 9999 and the first of 10000, around 10^12 (a millisecond clock read as seconds), 10^13, the calendar library's last
+        // second and the one after it, 10^15, 2^53, and the values that do not fit a signed 64-bit count
+        253402300799, 253402300800, 999_999_999_999, 1_000_000_000_000, 1_000_000_000_001, 1_700_000_000_000, 9_999_999_999_999, 10_000_000_000_000, 8210266876799, 8210266876800, 1_000_000_000_000_000, 1 << 53, (1 << 63) - 1, 1 << 63, u64::MAX].into_iter()
         .chain((0..if quick { 3000 } else { 84000 }).map(|d| d * 86400 * if quick { 28 } else { 1 } + 43199)).collect();
     let s4 = instants.par_iter().map(|&t| { let mut st = Stats::default(); judge_format_timestamp(&ctx, t, &mut st); st }).reduce(Stats::default, Stats::merge);
     // CLI binding: --output-template through run_cli and the binary on a slice
